@@ -134,3 +134,21 @@ def _():
     domain("num_scales", "int", lambda x: x >= 2)
     domain("scale_factor", "int", lambda x: x >= 2)
     domain("marge", "int", lambda x: x >= 0)
+
+
+# C05 "... band absent from the image ... is rejected ... and every value inside the domain is accepted": check_band_pipeline, for every
+# list of band names of the image, once per FORM of the step's band parameter (none, one name, a dictionary of names, a list of names)
+@contract("pandora.state_machine.PandoraMachine.check_band_pipeline", props=["C05"])
+def _(band_list, step, band_used):
+    types(band_list="str[:]", step="str", band_used="opaque")
+    type_cases(band_used=[None, "str", {"R": "str", "G": "str", "B": "str"}, ["str", "str"]])
+    option(no_fuzz=True)
+    # no band given: the image must be monoband; a band (or each of several) given: it must be one of the image's band names.
+    # (one name is compared as a whole -- the defect 1944eb0 repaired compared it character by character)
+    raises_iff(AttributeError,
+               (band_list.shape[0] != 1 if band_used is None else
+                ((band_list.shape[0] != 1 if band_used == "" else not any(band_list[i] == band_used for i in range(band_list.shape[0])))
+                 if isinstance(band_used, str) else
+                 (any(not any(band_list[i] == band_used[k] for i in range(band_list.shape[0])) for k in ["R", "G", "B"])
+                  if isinstance(band_used, dict) else
+                  any(not any(band_list[i] == b for i in range(band_list.shape[0])) for b in band_used)))))
